@@ -40,9 +40,10 @@ LineOK(e) ==
 (* Independent lines, judged in Stride interleaved chains (one TLC worker     *)
 (* each); a rejected line violates LinesOK and TLC prints its index l.        *)
 CONSTANT Stride
-TInit == l \in 1..Stride
+(* line-less start indices: initial states are evaluated on TLC's small main-thread stack *)
+TInit == l \in (1 - Stride)..0
 TNext == l <= Len(Trace) /\ l' = l + Stride /\ UNCHANGED <<x, lvl>>
 TSpec == TInit /\ x = XNil /\ lvl = 0 /\ [][TNext]_<<l, x, lvl>>
 
-LinesOK == l <= Len(Trace) => LineOK(Ev)
+LinesOK == (l >= 1 /\ l <= Len(Trace)) => LineOK(Ev)
 =============================================================================
